@@ -37,7 +37,7 @@ class Worker(threading.Thread):
     def spawn(self):
         env = dict(os.environ)
         env['PYTHONHASHSEED'] = str(self.hash_seed)
-        env['PYTHONPATH'] = os.path.join(core.VERIF_ROOT, 'sim')
+        env['PYTHONPATH'] = os.path.join(core.VERIF_ROOT, 'sim') + ((':' + core.REPO) if core.REPO != '/repo' else '')
         env['PYTHONWARNINGS'] = 'ignore::SyntaxWarning'
         env['PYTHONDONTWRITEBYTECODE'] = '1'
         self.proc = subprocess.Popen(['/venv/bin/python', '-m', 'vsim.pworker',
